@@ -279,6 +279,18 @@ func c15Build(c c15Config) *c15World {
 			}
 		}
 		w.f.Action(hs[c.P])
+	case "group-in-group":
+		// Recovery and everything behind it are handlers of an outer group; the routes sit in a nested group that
+		// has no handlers of its own
+		w.f.Use(hs[:c.R]...)
+		w.f.Group("/", func() {
+			w.f.Group("", func() {
+				w.f.Get("p", final)
+				if c.Phase != "unresolved-dependency" {
+					w.f.Get("n", final)
+				}
+			})
+		}, hs[c.R:]...)
 	case "group":
 		w.f.Use(hs[:c.R+1]...)
 		w.f.Group("/", func() {
@@ -322,7 +334,7 @@ func c15Build(c c15Config) *c15World {
 			// application middleware is shared by all routes: no normal route exists in this style
 		case "route":
 			w.f.Get("/n", append(ok, final)...)
-		case "group":
+		case "group", "group-in-group":
 			// group handlers are shared as well
 		}
 	}
@@ -469,7 +481,7 @@ func c15Configs(thorough bool) []c15Config {
 	}
 	phases := []string{"before-write", "after-status", "after-body", "after-next", "unresolved-dependency", "after-failed-hijack-and-push", "after-flush", "deep-recursion", "after-next-unanswered", "after-cancelling-the-request-context", "inside-a-before-function", "inside-two-before-functions", "status-code-the-underlying-writer-refuses", "after-status-204", "after-status-304", "after-status-103"}
 	values := []string{"string", "error", "runtime", "struct", "abort", "nil-error-pointer", "panicking-stringer"}
-	styles := []string{"use", "route", "group", "use-action", "route-action"}
+	styles := []string{"use", "route", "group", "use-action", "route-action", "group-in-group"}
 	for n := 2; n <= maxN; n++ {
 		for r := 0; r < n-1; r++ {
 			for p := r + 1; p < n; p++ {
@@ -483,7 +495,7 @@ func c15Configs(thorough bool) []c15Config {
 								continue
 							}
 							for _, st := range styles {
-								if !thorough && n == 4 && st == "group" && v != "string" {
+								if !thorough && n == 4 && (st == "group" || st == "group-in-group") && v != "string" {
 									continue
 								}
 								if strings.HasSuffix(st, "-action") && (p != n-1 || (!thorough && n == 4 && v != "string" && v != "struct")) {
@@ -541,7 +553,7 @@ func c15Run(r *core.Run) {
 	if !r.Thorough() {
 		seqs = []string{"P", "PN", "PPN", "NPN", "PNP", "PQ", "QPQ", "PPQ"}
 	}
-	r.Rule = "engine E: stacks of 2..4 (thorough 5) handlers with Recovery at every position, logging middleware before it, pass-through handlers (with and without their own Next()) between it and the panicking handler at every later position; panic phase {before any write, after a status, after body bytes, after Next() returned, unresolved dependency, after a failed Hijack and Push, after Flush, 400 calls down the stack} x value {string, error, runtime error, struct, http.ErrAbortHandler, typed-nil error pointer, value whose String() panics} x registration style {application middleware, route handlers, middleware+group, middleware or route handlers with the panicking handler as the final Action} x {default, application-mapped ReturnHandler} x environment {development, production, test} x request sequences over {panicking, normal}; oracle: nothing escapes, status 500 iff nothing had been sent, detail in the body iff development, outer middleware completes, no handler behind the panicking one runs once Recovery has answered, normal requests equal a fresh instance; non-trivial = sequence with >=2 requests or a panic after something was written"
+	r.Rule = "engine E: stacks of 2..4 (thorough 5) handlers with Recovery at every position, logging middleware before it, pass-through handlers (with and without their own Next()) between it and the panicking handler at every later position; panic phase {before any write, after a status, after body bytes, after Next() returned, unresolved dependency, after a failed Hijack and Push, after Flush, 400 calls down the stack} x value {string, error, runtime error, struct, http.ErrAbortHandler, typed-nil error pointer, value whose String() panics} x registration style {application middleware, route handlers, middleware+group, handlers of an outer group around a handler-less nested group, middleware or route handlers with the panicking handler as the final Action} x {default, application-mapped ReturnHandler} x environment {development, production, test} x request sequences over {panicking, normal}; oracle: nothing escapes, status 500 iff nothing had been sent, detail in the body iff development, outer middleware completes, no handler behind the panicking one runs once Recovery has answered, normal requests equal a fresh instance; non-trivial = sequence with >=2 requests or a panic after something was written"
 	r.Bounds["configs"] = len(cfgs)
 	r.Bounds["sequences"] = seqs
 	r.Assumptions = []string{"panic(nil) is outside the statement ('any non-nil value')", "environments are process-global: the three environments run as sequential phases"}
